@@ -18,6 +18,7 @@ func init() {
 }
 
 func ruleCover(c *Ctx) {
+	coverExecuteError(c)
 	cp := c.pkg("internal/cover")
 	if cp == nil {
 		c.undecided("anchor:cover", token.NoPos, "package internal/cover not loaded")
